@@ -286,9 +286,35 @@ def nanbits(a):
     return [-1 if np.isnan(v) else fbits(v) for v in a.ravel()]
 
 
-def roundtrip(bio, results, config, workdir):
-    """-> (ds or None, exception or None)"""
-    path = os.path.join(workdir, "rt.nc")
+# File names a user may choose (the property quantifies over "saving ... and loading them back", not over names):
+# rotated through on consecutive round trips; the two dotted names of one generation differ only after the last dot.
+NAME_STYLES = ["rt_%d.nc", "run_%d.2024.06.01", "run_%d.2024.06.02", "noext_%d", "x.y_%d.nc4", "sub_%d/dir/out.nc", "run_%d.v1.nc", "run_%d.v2.nc"]
+_RT = {"n": 0, "prev": None}
+LAST_HISTORY = [None]
+
+
+def ds_digest(ds):
+    import hashlib
+
+    h = hashlib.sha1()
+    for var in ("footprint", "concentration"):
+        if var in ds:
+            h.update(np.ascontiguousarray(ds[var].values).tobytes())
+    for coord in ("time", "tower"):
+        if coord in ds.coords:
+            h.update(repr([str(v) for v in ds[coord].values]).encode())
+    return h.hexdigest()
+
+
+def roundtrip(bio, results, config, workdir, path=None):
+    """-> (ds or None, exception or None).  Consecutive round trips use different file names in one directory and the
+    PREVIOUS file is loaded again after the current save: an earlier export must still hold its own data (history of
+    saves) — a problem is left in LAST_HISTORY for property_problems."""
+    LAST_HISTORY[0] = None
+    if path is None:
+        k = _RT["n"]
+        _RT["n"] += 1
+        path = os.path.join(workdir, NAME_STYLES[k % len(NAME_STYLES)] % (k // len(NAME_STYLES)))
     if os.path.exists(path):
         os.remove(path)
     try:
@@ -298,6 +324,25 @@ def roundtrip(bio, results, config, workdir):
     ds = bio.load_footprints_from_netcdf(path)
     ds.load()
     ds.close()
+    prev = _RT["prev"]
+    if prev is not None and prev[0] != path and os.path.dirname(prev[0]) and os.path.isdir(os.path.dirname(prev[0])):
+        try:
+            again = bio.load_footprints_from_netcdf(prev[0])
+            again.load()
+            again.close()
+            if ds_digest(again) != prev[1]:
+                LAST_HISTORY[0] = ("after saving other results to %r, loading the earlier export %r no longer returns the data that were saved to it"
+                                   % (os.path.relpath(path, workdir), os.path.relpath(prev[0], workdir)))
+        except Exception as e:  # noqa: BLE001
+            LAST_HISTORY[0] = "after saving other results to %r, loading the earlier export %r raises %s" % (
+                os.path.relpath(path, workdir), os.path.relpath(prev[0], workdir), type(e).__name__)
+        # the file before the previous one is no longer needed
+        try:
+            if prev[2] and os.path.exists(prev[2]):
+                os.remove(prev[2])
+        except OSError:
+            pass
+    _RT["prev"] = (path, ds_digest(ds), prev[0] if prev else None)
     return ds, None
 
 
@@ -314,6 +359,9 @@ def property_problems(results, config, info, ds, exc):
     probs = []
     if exc is not None:
         return [("raise", "%s: %s" % (type(exc).__name__, str(exc)[:300]))]
+    if LAST_HISTORY[0]:
+        probs.append(("history", LAST_HISTORY[0]))
+        LAST_HISTORY[0] = None
     names = list(results.keys())
     first = results[names[0]]
     by_name = {t.name: t for t in config.towers}
@@ -592,7 +640,8 @@ def classify(kind, case):
         return "labels:reordered-results" if o in ("reversed", "shuffled") else ("labels:subset-results" if o == "subset" else "labels:config-order")
     return {"values": "roundtrip:values", "coords": "roundtrip:coords", "timestamps": "roundtrip:timestamps",
             "met": "roundtrip:met", "tower-names": "roundtrip:tower-names", "select-tower": "select:tower",
-            "select-time": "select:time", "select-both": "select:tower-and-time", "select-raises": "select:raises"}.get(kind, "roundtrip:" + kind)
+            "select-time": "select:time", "select-both": "select:tower-and-time", "select-raises": "select:raises",
+            "history": "history:earlier-export-changed-by-a-later-save"}.get(kind, "roundtrip:" + kind)
 
 
 def classify_raise(bio, cp, case, workdir):
@@ -866,6 +915,15 @@ def replay(body):
             results, config, info = build(cp, case)
         ds, exc = roundtrip(bio, results, config, workdir)
         probs = property_problems(results, config, info, ds, exc)
+        if body.get("kind") == "history" and "real" not in case:
+            # the sequence of saves: the case and a variant of it, alternately, to every kind of file name in one directory
+            other = dict(case, seed=case.get("seed", 0) + 1)
+            _RT["n"] = 0
+            _RT["prev"] = None
+            for k in range(2 * len(NAME_STYLES)):
+                r2, c2, i2 = build(cp, case if k % 2 == 0 else other)
+                d2, e2 = roundtrip(bio, r2, c2, workdir)
+                probs += [p for p in property_problems(r2, c2, i2, d2, e2) if p[0] == "history"]
         print("case            =", case)
         print("configured      =", [(t.name, t.lat, t.lon, t.z_m) for t in config.towers])
         print("results keys    =", list(results.keys()))
